@@ -205,6 +205,13 @@ def pair_rule(ctx: Ctx, rs: RuleSet, rule: str, guard: Guard,
       continue
     writers.append(q)
     live = g.live_nodes()
+    # class-based context manager: the flip in __enter__ is paired with the
+    # restore in __exit__ of the same class (`with` runs __exit__ on every
+    # exit of the block once __enter__ has returned)
+    if f.cls is not None and f.name in ('__enter__', '__exit__') and (
+        '__enter__' in f.cls.methods and '__exit__' in f.cls.methods):
+      _pair_enter_exit(ctx, rs, rule, guard, f, g, writes, live)
+      continue
     restores = {n for n in writes if _in_finally(f, g.stmt[n])}
     flips = {n for n in writes if n not in restores}
     for n in sorted(flips):
@@ -278,6 +285,63 @@ def pair_rule(ctx: Ctx, rs: RuleSet, rule: str, guard: Guard,
     if not flips and restores:
       pass
   return writers
+
+
+def _pair_enter_exit(ctx, rs, rule, guard, f, g, writes, live):
+  """PAIR for a context-manager class (one obligation set per class)."""
+  from fdlstatic import cfg as cfg_lib
+  cls = f.cls
+  if f.name != '__enter__':
+    return  # handled together with __enter__
+  ex = cls.methods['__exit__']
+  gx = ctx.cfg(ex)
+  xw = {n: guard_write_value(ctx, gx, n, ex, guard) for n in gx.nodes()}
+  xw = {n: v for n, v in xw.items() if v is not None}
+  key = f'{cls.qualname}:{guard.name}'
+  # (a) __exit__ restores on every path (normal return or raise)
+  always = bool(xw) and gx.exit not in gx.reach(
+      [gx.entry], blocked=set(xw), labels=cfg_lib.NO_EXC) and (
+          gx.raise_exit not in gx.reach([gx.entry], blocked=set(xw),
+                                        labels=cfg_lib.NO_EXC))
+  # (b) after the flip __enter__ only returns (an explicit raise after the
+  # flip would leave the guard set: __exit__ does not run then)
+  ok_enter = True
+  for n in writes:
+    r = g.reach([m for m, lab in g.succ[n] if lab != 'exc'],
+                labels=cfg_lib.NO_EXC)
+    if g.raise_exit in r:
+      ok_enter = False
+  rs.check(always and ok_enter, rule, key,
+           f'{guard.name} is set in {cls.name}.__enter__ and restored on every '
+           f'path of {cls.name}.__exit__' if always and ok_enter else
+           (f'{cls.name}.__exit__ has a path that does not restore '
+            f'{guard.name}' if not always else
+            f'{cls.name}.__enter__ can raise after it set {guard.name}: '
+            '__exit__ is not run for a failed __enter__'),
+           ctx.loc(f, f.node))
+  # restored value: the constant the guard is known to hold at the flip, or a
+  # value read from the guard in __enter__ before the flip
+  for n, v in sorted(xw.items()):
+    ok = False
+    why = f'restored value `{unparse(v)}` not understood'
+    if isinstance(v, ast.Constant) and guard.default is not None and isinstance(
+        guard.default, ast.Constant) and v.value == guard.default.value:
+      ok = bool(writes) and all(
+          _guard_known_at(ctx, g, f, guard, fl, v.value) for fl in writes)
+      why = (f'restores {v.value!r}, the value the guard is known to hold '
+             'when __enter__ flips it (re-entry is rejected before)' if ok else
+             f'restores the constant {v.value!r} although the guard may hold '
+             'another value on entry (nested use)')
+    elif isinstance(v, ast.Attribute) and isinstance(v.value, ast.Name) and (
+        v.value.id == ex.params[0]):
+      saved = [s for s in walk_function(f.node) if isinstance(s, ast.Assign)
+               and any(isinstance(t, ast.Attribute) and t.attr == v.attr and
+                       unparse(t.value) == f.params[0] for t in s.targets)
+               and _is_guard_read(ctx, s.value, f, guard)]
+      ok = bool(saved)
+      why = (f'restores self.{v.attr}, read from the guard in __enter__'
+             if ok else f'self.{v.attr} is not a read of the guard')
+    rs.check(ok, rule, key + ':restore-value', why, ctx.loc(ex, gx.stmt[n]))
 
 
 def stmt_key(f: FuncInfo, text: str) -> str:
